@@ -78,7 +78,7 @@ func vh_C12_HandlerDefault() {
 	h.Post(func() { n += 10 })
 	vfQuiesce()
 	vfAssert("both-ran-in-order", n == 11)
-	vfAssert("default-handler-exists", Handler.GetDefault() != nil)
+	vfAssert("lemma/default-handler-exists", Handler.GetDefault() != nil)
 	vfReach("end")
 }
 
@@ -141,7 +141,7 @@ func vh_C12_SpawnTree() {
 	childSelf = child
 	vfAssert("child-parent", child.GetParent() == parent)
 	vfAssert("parent-child", parent.GetChild(child.GetID()) == child)
-	vfAssert("distinct-ids", child.GetID() != parent.GetID())
+	vfAssert("lemma/distinct-ids", child.GetID() != parent.GetID())
 	grand := child.Spawn(func(ac *ActorDef[int], m int) {})
 	vfAssert("grandchild-parent", grand.GetParent() == child)
 	vfAssert("grandchild-not-under-root", parent.GetChild(grand.GetID()) == nil)
@@ -163,8 +163,8 @@ func vh_C12_SpawnTree() {
 	orphan2 := parent.Spawn(func(ac *ActorDef[int], m int) { got = m })
 	orphan2.Send(5)
 	vfQuiesce()
-	vfAssert("orphan-still-works", got == 5)
-	vfAssert("default-actor-closed", Actor.GetDefault().IsClosed())
+	vfAssert("lemma/orphan-still-works", got == 5)
+	vfAssert("lemma/default-actor-closed", Actor.GetDefault().IsClosed())
 	vfReach("end")
 }
 
